@@ -204,7 +204,7 @@ def gen_jobs(rng, quick, opts_list, with_lexical=True, nrand=None, maxlen=None, 
         jobs.append(("null2_%d" % i, text, inputs, opts_list[i % len(opts_list)]))
     if nrand:
         # LALR tables with split same-kernel states (about 1% of the small random grammars)
-        for i, (prods, text) in enumerate(split_state_grammars(rng, 1500 if quick else 12000, 12 if quick else 80)):
+        for i, (prods, text) in enumerate(split_state_grammars(rng, min(1500, 12 * nrand) if quick else 12000, 12 if quick else 80)):
             inputs = list(gramgen.all_strings(["a", "b"], 6 if quick else 7))
             jobs.append(("split%d" % i, text, inputs, {**opts_list[0], "tables": 1} if "tables" in opts_list[0]
                          else opts_list[0]))
